@@ -28,10 +28,21 @@ func ndo(t *Ty, name, opt string) string {
 	return fmt.Sprintf("vx.NondetOpt[%s](%q, %q)", t.Expr(), name, opt)
 }
 
+// recMapOpt: recursion through a map multiplies sorted-key comparisons; one entry per map, 1-byte keys.
+func recMapOpt(in Inst) string {
+	if in.Tags["rec"] && in.Tags["map"] {
+		return "map=1,str=1"
+	}
+	return ""
+}
+
 // smallOpt: reduced bounds for three-value harnesses over recursive / deep types.
 func smallOpt(in Inst) string {
 	if in.Tags["rec"] {
 		return "len=1,cap=0,map=1,str=1"
+	}
+	if in.Tags["map"] {
+		return "len=1,cap=0,str=1"
 	}
 	return ""
 }
@@ -159,18 +170,18 @@ func genC03(g *Gen, in Inst, tier string) []HarnessSrc {
 	var out []HarnessSrc
 	out = append(out, h("VX_C03_range_antisym_"+in.ID, "antisym", fmt.Sprintf(
 		"\tx := %s\n\ty := %s\n\tc := %s(x, y)\n\tvx.Assert(c == -1 || c == 0 || c == 1, \"result in {-1,0,1}\")\n\tvx.Assert(c == -%s(y, x), \"antisymmetric\")\n",
-		nd(T, "x"), nd(T, "y"), cmp, cmp)))
+		ndo(T, "x", recMapOpt(in)), ndo(T, "y", recMapOpt(in)), cmp, cmp)))
 	out = append(out, h("VX_C03_eqlink_"+in.ID, "eqlink", fmt.Sprintf(
 		"\tx := %s\n\ty := %s\n\tvx.Assert((%s(x, y) == 0) == %s(x, y), \"compare==0 iff equal\")\n",
-		nd(T, "x"), nd(T, "y"), cmp, eq)))
+		ndo(T, "x", recMapOpt(in)), ndo(T, "y", recMapOpt(in)), cmp, eq)))
 	out = append(out, h("VX_C03_diff1_"+in.ID, "diff1", fmt.Sprintf(
 		"\tx := %s\n\ty := %s\n\tn, s := %s(x, y)\n\tvx.Assume(n == 1 && !%s(x, y))\n\tvx.Assert(%s(x, y) == s, \"single difference ordered naturally\")\n",
-		nd(T, "x"), nd(T, "y"), diff, eq, cmp)))
+		ndo(T, "x", recMapOpt(in)), ndo(T, "y", recMapOpt(in)), diff, eq, cmp)))
 	out = append(out, h("VX_C03_trans_"+in.ID, "trans", fmt.Sprintf(
 		"\tx := %s\n\ty := %s\n\tz := %s\n\tvx.Assume(%s(x, y) <= 0 && %s(y, z) <= 0)\n\tvx.Assert(%s(x, z) <= 0, \"transitive\")\n",
 		ndo(T, "x", smallOpt(in)), ndo(T, "y", smallOpt(in)), ndo(T, "z", smallOpt(in)), cmp, cmp, cmp)))
 	out = append(out, h("VX_C03_curried_"+in.ID, "curried", fmt.Sprintf(
-		"\tx := %s\n\ty := %s\n\tvx.Assert(%sC(x)(y) == %s(x, y), \"curried form agrees\")\n", nd(T, "x"), nd(T, "y"), cmp, cmp)))
+		"\tx := %s\n\ty := %s\n\tvx.Assert(%sC(x)(y) == %s(x, y), \"curried form agrees\")\n", ndo(T, "x", recMapOpt(in)), ndo(T, "y", recMapOpt(in)), cmp, cmp)))
 	return out
 }
 
